@@ -52,6 +52,27 @@ def _header_block(line):
     return lambda size: line * max(1, size // len(line)) + b'\r\n'
 
 
+def _client_hello(pattern):
+    """Client hello of about `size` bytes: cipher suite list (2..65534 bytes) filled after `pattern`, or many extensions."""
+    from vmon.ref import tls as ref  # pylint: disable=import-outside-toplevel
+
+    def make(size):
+        count = max(2, min(32767, size // 2))
+        ordinary = [0xc02b, 0xc02f, 0x009e, 0x1301, 0xcca9]
+        extensions = []
+        if pattern == 'scsv-tail':
+            suites = [ordinary[i % 5] for i in range(count // 2)] + [0x00ff] * (count - count // 2)
+        elif pattern == 'scsv-alternating':
+            suites = [(0x5600, ordinary[i % 5], 0x00ff, ordinary[(i + 1) % 5])[i % 4] for i in range(count)]
+        elif pattern == 'grease-suites':
+            suites = [(0x0a0a + 0x1010 * (i % 16)) for i in range(count)]
+        else:
+            suites = ordinary
+            extensions = [ref.extension(0xfe00 + i % 200, b'') for i in range(max(1, min(16000, size // 4)))]
+        return ref.client_hello(0x0303, b'\x11' * 32, b'', suites, [0], extensions)
+    return make
+
+
 SPF = 'cryptoparser.dnsrec.txt:DnsRecordTxtValueSpf'
 EXPLICIT_SHAPES = [(SPF, 'spf-' + term.decode('ascii').split(':')[0].split('=')[0] + ('-cidr' if b'/' in term else ''), _spf(term))
                    for term in (b'a:example.com', b'mx:example.com', b'a', b'mx', b'a:example.com/24', b'mx/24//64',
@@ -66,6 +87,10 @@ EXPLICIT_SHAPES = [(SPF, 'spf-' + term.decode('ascii').split(':')[0].split('=')[
      lambda size: b'no-cache, ' + b', '.join([b'x=y'] * max(1, size // 5))),
     ('cryptoparser.httpx.header:HttpHeaderFieldValueSetCookie', 'set-cookie-attributes', _tagged(b'n=v; ', b'x=y')),
     ('cryptoparser.ssh.subprotocol:SshKeyExchangeInit', 'kexinit-name-list', _kexinit),
+    ('cryptoparser.tls.subprotocol:TlsHandshakeClientHello', 'hello-scsv-tail', _client_hello('scsv-tail')),
+    ('cryptoparser.tls.subprotocol:TlsHandshakeClientHello', 'hello-scsv-alternating', _client_hello('scsv-alternating')),
+    ('cryptoparser.tls.subprotocol:TlsHandshakeClientHello', 'hello-grease-suites', _client_hello('grease-suites')),
+    ('cryptoparser.tls.subprotocol:TlsHandshakeClientHello', 'hello-unknown-extensions', _client_hello('extensions')),
     ('cryptoparser.dnsrec.record:DnsRecordTxt', 'txt-strings', _txt_strings),
     ('cryptoparser.httpx.header:HttpHeaderFields', 'unknown-header-lines', _header_block(b'X-Unknown-Header: value\r\n')),
     ('cryptoparser.httpx.header:HttpHeaderFields', 'known-header-lines', _header_block(b'Strict-Transport-Security: max-age=1\r\n')),
@@ -230,6 +255,33 @@ class Check(core.CheckBase):
                     '%s: %s shape: %d bytes -> %d steps, %d bytes -> %d steps (x%.2f for x%.2f input)' % (
                         cls.__name__, label, len_a, steps_a, len_b, steps_b, ratio, expected), case))
                 break
+        # curvature: step counts are deterministic, so a small quadratic term hidden under a large linear constant at these
+        # sizes can still be resolved. c is estimated from two overlapping triples; when both agree on a positive c, the fitted
+        # a + b*L + c*L^2 is extrapolated to a 64 KiB input (the largest length-prefixed field) and must stay inside the budget
+        if not found and len(series) >= 4 and all(outcome[0] != 'budget' for _, _, _, outcome in series):
+            points = [(float(length), float(steps)) for length, steps, _, _ in series[-4:]]
+            curvatures = []
+            for (x0, y0), (x1, y1), (x2, y2) in (points[0:3], points[1:4]):
+                if not x0 < x1 < x2:
+                    curvatures = []
+                    break
+                slope_a, slope_b = (y1 - y0) / (x1 - x0), (y2 - y1) / (x2 - x1)
+                curvatures.append((slope_b - slope_a) / ((x2 - x0) / 2.0) / 2.0)
+            if len(curvatures) == 2 and min(curvatures) > 0 and max(curvatures) < 4 * min(curvatures):
+                self.stats['curvatures_judged'] += 1
+                coefficient = min(curvatures)
+                (x2, y2), (x3, y3) = points[2], points[3]
+                slope = (y3 - y2) / (x3 - x2)
+                far = 65536.0
+                predicted = y3 + slope * (far - x3) + coefficient * (far - x3) ** 2
+                share_now = coefficient * x3 ** 2 / max(1.0, y3)
+                if share_now >= 0.05 and predicted > BUDGET_A + BUDGET_B * far:
+                    found.append(self.violation(
+                        'super-linear|%s' % label,
+                        '%s: %s shape: steps %r at %r bytes bend upwards (quadratic term %.3g*L^2, %.0f%% of the work at %d bytes); '
+                        'extrapolated to 64 KiB that is %.3g steps, over the linear budget' % (
+                            cls.__name__, label, [int(y) for _, y in points], [int(x) for x, _ in points], coefficient,
+                            100 * share_now, x3, predicted), case))
         depths = [depth for _, _, depth, _ in series]
         if depths[-1] > depths[0] + 4:
             found.append(self.violation('depth-grows|%s' % label,
